@@ -11,6 +11,7 @@ import (
 	"github.com/gmrtd/gmrtd/bac"
 	"github.com/gmrtd/gmrtd/chipauth"
 	"github.com/gmrtd/gmrtd/document"
+	"github.com/gmrtd/gmrtd/iso7816"
 	"github.com/gmrtd/gmrtd/password"
 	"github.com/gmrtd/gmrtd/verifhook"
 
@@ -46,6 +47,7 @@ type caCase struct {
 	Arr       []arrKey // CaSelect.tla arrangement (overrides KeyArr): the keys in DG14 order
 	WantKey   int      // CaSelect.tla: index (1-based) of the key both sides settle on
 	WantSuite string   // CaSelect.tla: suite the terminal uses
+	ReplayAfter bool   // after a FAILED chip authentication: present every earlier protected response of the session again
 	ForceZero bool
 	Seed      int64
 }
@@ -65,6 +67,7 @@ type caOutcome struct {
 	forced                                                         bool
 	chipOID                                                        string
 	chipKeyID                                                      int
+	replayAccepted                                                 string // ReplayAfter: which earlier response was delivered as the answer to a later command
 }
 
 func ip(i int) *int { return &i }
@@ -131,6 +134,9 @@ func runCA(k caCase) caOutcome {
 		o.CA = []perso.CASpec{first, spec}
 	default:
 		o.CA = []perso.CASpec{spec}
+	}
+	if k.Strategy == "genuine" && k.Seed%3 == 0 {
+		o.Personality.FixedWidthLengths = true // BER length forms are the chip's choice (7C 82 00 00)
 	}
 	switch k.Strategy {
 	case "random-keys":
@@ -240,6 +246,29 @@ func runCA(k caCase) caOutcome {
 		out.success = err == nil && res != nil && res.Success
 	}()
 	s.Link.Script = nil
+	if k.ReplayAfter && !out.success {
+		// C03 along a history with a failed chip authentication in it: whatever session state the failure leaves behind,
+		// no earlier genuine response of the session is accepted as the answer to a later command
+		var olds [][]byte
+		for _, ex := range s.Link.Exchanges() {
+			if len(ex.Cmd) > 0 && ex.Cmd[0]&0x0C == 0x0C && len(ex.ChipResp) > 2 {
+				olds = append(olds, ex.ChipResp)
+			}
+		}
+		for i := len(olds) - 1; i >= 0 && out.replayAccepted == ""; i-- {
+			old := olds[i]
+			s.Link.Script = func(idx int, cmd []byte, l *link.Link) link.Action {
+				return link.Action{Name: "replay-after-failed-ca", Respond: func(g []byte, l *link.Link) []byte { return old }}
+			}
+			func() {
+				defer func() { _ = recover() }()
+				if ra, err := s.Nfc.DoAPDU(iso7816.NewCApdu(0x00, 0xB0, 0x00, 0x00, nil, 8), "probe"); err == nil && ra != nil {
+					out.replayAccepted = fmt.Sprintf("response #%d of the session (%x) delivered as data %x status %04X", i+1, old, ra.Data, ra.Status)
+				}
+			}()
+		}
+		s.Link.Script = nil
+	}
 	tr := chip.Truth()
 	out.chipCompleted, out.chipAnswered = tr.CaCompleted, tr.CaAnswered
 	out.chipOID = tr.CaOID
@@ -412,4 +441,24 @@ func c06Arrangements(c *core.Ctx) []caCase {
 		core.Infra("MC_CaSelect_strict: the design demanding identical key ids must violate SelectOK, found no counterexample")
 	}
 	return out
+}
+
+// c03AfterFailedCA (called by C03): sessions in which a chip authentication fails at its confirming exchange (impostor
+// strategies of ChipAuth.tla), followed by replays of every earlier protected response of the session.
+func c03AfterFailedCA(c *core.Ctx) {
+	var cases []caCase
+	for i, st := range []string{"other-key", "random-keys", "replay", "old-session", "no-session"} {
+		for j, oid := range []string{chipsim.OIDCaEcdh3Des, chipsim.OIDCaEcdhAes128, ""} {
+			cases = append(cases, caCase{OID: oid, ParamID: []int{12, 13, 10}[(i+j)%3], Params: "explicit", KeyArr: "none", Strategy: st, ReplayAfter: true, Seed: c.Rand.Int63()})
+		}
+	}
+	outs := make([]caOutcome, len(cases))
+	core.ParallelFor(len(cases), func(i int) { outs[i] = runCA(cases[i]) })
+	for i, k := range cases {
+		c.Case("after-failed-ca/"+k.String(), true)
+		if outs[i].replayAccepted != "" {
+			c.Violation("C03:replay-accepted-after-failed-chip-authentication", fmt.Sprintf("after a chip authentication that failed at its confirming exchange (%s): %s", k, outs[i].replayAccepted), map[string]any{"case": k.String(), "seed": k.Seed})
+		}
+	}
+	c.Extra["histories_with_failed_chip_authentication"] = len(cases)
 }
